@@ -166,6 +166,14 @@ def chains(case):
         st_, u = guard(get_used_qubit_indices, s_obj, what="get_used_qubit_indices(macro call)")
         if st_ == "err" or {kk: set(v) for kk, v in dict(u).items() if v} != {regname: {k}}:
             raise Violation("used-qubits", f"macro call {s_model}: {u}, expected {{{regname!r}: {{{k}}}}}\n--- program:\n{text}", where="macro-call")
+    # resolve_qubit(context): the macro body's own qubit object `p[o]`, resolved under every binding
+    body_q = _qubit_of(c.macros["viaarr"].body.statements[0])
+    for nm, el in reglike:
+        robj = c.registers[nm]
+        for i in range(len(el)):
+            st_, rq = guard(body_q.resolve_qubit, {"p": robj, "o": i}, what="resolve_qubit(context)")
+            if st_ == "err" or rq[0].name != regname or rq[1] != el[i]:
+                raise Violation("resolve_qubit", f"macro body qubit p[o] under p={nm}, o={i}: {rq if st_ == 'err' else (rq[0].name, rq[1])}, expected {regname}[{el[i]}]\n--- program:\n{text}", where="context")
     # the same chain under an override dictionary: every consumer must follow the overriding values
     env = case.get("env") or {}
     if env:
